@@ -7,6 +7,15 @@ CHECKS = {
  "C01": ("exploration","seeded simulation: real serializer -> link with PRNG-decided segmentation -> real deserializer; exact sequence oracle","§4 C01",
          "Seeded search over sender scripts x segmentations (400k quick / 12M thorough runs). Finds any round-trip failure that needs a particular header history, chunk size or cut position; samples, does not enumerate.",
          "Trusts the link/driver stubs; raw type-1 messages announce the chunk size in force; messages bounded to 20,000 chunks."),
+ "C02": ("exploration","seeded simulation of a real ClientSession and a real ServerSession over two links: scheduler decides segmentation, interleaving of both directions and of both application drivers, clocks and configurations; exactly-once in-order media oracle plus bounded liveness at quiescence","§4 C02",
+         "Seeded search over scenario scripts x configurations x interleavings (100k quick / 3M thorough runs); invariants: no Err, receiving-side events are a prefix of the items sent with identical bytes/timestamps/tags; end: both sides accepted, everything delivered exactly once, finished event raised, nothing left waiting.",
+         "Window product Wc*Ws >= 4096 (ack storms are protocol-inherent below that); app names without trailing '/'; payloads bounded to 3,000 chunks."),
+ "C17": ("exploration","seeded simulation with refinement against a reference counter (AckModel) stepped once per handle_input call; windows exhaustive 1..64 then sampled, re-announcements, link-decided call sizes","§4 C17",
+         "Every handle_input call of real sessions (World D pair and Worlds E/F against scripted peers) is checked against the model: an Acknowledgement exactly when the count reaches W, carrying the count; conservation and count<W invariants.",
+         "Counts near 2^32 unreachable; both admissible initial counters carried for the call that delivers the window."),
+ "C18": ("exploration","seeded simulation with clock faults (uptime offsets around 2^24/2^32 ms, forward/backward jumps via the clock seam) and drop_droppable faults evaluated on the recorded packet history; oracle = strict reference chunk decoder + message well-formedness + expected message streams","§4 C18",
+         "Each session's complete ordered packet list (all public calls) is decoded by an independent strict decoder with none/all/sampled droppable subsets removed; millions of simulated hours per run batch at no wall-clock cost.",
+         "User-control events may be on stream 0 or the stream they refer to; handle_input reactions expected on stream 0 or a stream named in the causing input."),
  "C03": ("fault_enumeration","seeded simulation with hostile-peer fault injection (bitflip, overwrite, truncate, insert, duplicate, splice_header, hostile message vocabulary) into live scenarios; safety oracle (catch_unwind + overflow checks, counting allocator heap bound, worker watchdog)","§4 C03",
          "Hostile bytes arrive mid-scenario in every world (deserializer + message decoder, handshake, server session, client session), after valid prefixes, at PRNG-chosen cuts; any panic, overflow, abort, hang or attributed heap excess is reported with seed and minimised replay.",
          "AMF0 nesting bounded to 32 (C14 not claimed); heap constant 256x bytes received is generous by design; overflow-checks/debug-assertions on in the release build."),
